@@ -145,9 +145,9 @@ var plans = map[string]*Plan{
 	},
 	"C03": {
 		Level:     "exploration",
-		Scenarios: []ScenPlan{{"sysfault", 16000, 300000}},
+		Scenarios: []ScenPlan{{"sysfault", 16000, 300000}, {"lbmix", 12000, 300000}},
 		QuickWallS: 150, ThoroughWallS: 1700,
-		Rule:        "Scenario sysfault: the real stack over simnet with swarm configuration (every strategy; breaker, limiter, passive/active checks, plugins each on or off; read/write/backend_dial/backend_read timeouts 1-10s) and a drawn fault sequence of length 2-6 (thorough 2-12) over {refuse, dial black-hole, hang-headers, reset-after-headers, short-body, garbage, 5xx, slow-body, stall-after-headers, client-abort-upload, client-abort-download}, sequential and overlapping (1-3 clients); oracle: no panic, every request ends within read+write+backend_dial+backend_read+1s, after faults stop a recovery request is served normally.",
+		Rule:        "Scenario sysfault: the real stack over simnet with swarm configuration (every strategy; breaker, limiter, passive/active checks, plugins each on or off; read/write/backend_dial/backend_read timeouts 1-10s) and a drawn fault sequence of length 2-6 (thorough 2-12) over {refuse, dial black-hole, hang-headers, reset-after-headers, short-body, garbage, 5xx, slow-body, stall-after-headers, client-abort-upload, client-abort-download}, sequential and overlapping (1-3 clients); oracle: no panic, every request ends within read+write+backend_dial+backend_read+1s, after faults stop a recovery request is served normally. Scenario lbmix (micro-sim, seeded cooperative scheduler): concurrent traffic with backend faults (5xx, unreachable, aborted body, slow answers), admin and metrics tasks, probes, elapsed windows and task stalls; after the faults stop a request to a healthy backend must succeed; wait-for cycles, leaked locks, spinning and panics after injected faults are C03 violations with a replayable schedule.",
 		Real:        sysReal, Stub: sysStub, Assumptions: commonAssumptions,
 		ExpectProbes: []string{"recovered", "clean-exchange-ok"},
 	},
